@@ -372,7 +372,11 @@ def finish(mod, pid, tier, seed, results, dead, wall, n_shards) -> int:
         "violations": len(new_sigs),
     }
     (ROOT / "evidence").mkdir(exist_ok=True)
-    (ROOT / "evidence" / f"{pid}.json").write_text(json.dumps(evidence, indent=1, default=repr))
+    text = json.dumps(evidence, indent=1, default=repr)
+    (ROOT / "evidence" / f"{pid}.json").write_text(text)
+    # a per-tier copy, so that the last thorough run stays visible after a later quick run
+    (ROOT / "evidence" / tier).mkdir(exist_ok=True)
+    (ROOT / "evidence" / tier / f"{pid}.json").write_text(text)
     _validate(evidence)
 
     for ln in lines:
